@@ -130,6 +130,9 @@ func evalC20(c c20Case, o *Obs) error {
 	if outDir != "" { // for attribution if the race detector halts the process
 		js, _ := json.Marshal(map[string]any{"property": "C20", "kind": "program", "case": c})
 		os.WriteFile(filepath.Join(outDir, "current-case.json"), js, 0o644)
+		if currentEv != nil && currentEv.evaluations%10 == 0 {
+			currentEv.flush()
+		}
 	}
 	txs, err := buildTxs(c.Txs)
 	if err != nil {
